@@ -1,0 +1,38 @@
+//go:build verif
+
+// Contracts read by the verification tooling in /verif (build tag "verif"; comment-only).
+package graph
+
+// C13: parameter updates, parameter reads and artifact generation are serialised by Instance.producerLock.
+//
+// held(i.producerLock) is the ghost flag "the running goroutine holds the mutex" (set by Lock, cleared by
+// Unlock).  "guarded <lock>: names" makes every call of a named method inside the function an obligation
+// guard[name]: the lock is held at that call; guard.released: it is released at every return; lock.free /
+// lock.held: no Lock while holding it (self-deadlock), no Unlock without holding it.  Everything that
+// evaluates or mutates the lazily evaluated node graph on these paths is named: applying a message to a
+// parameter, serialising a parameter, evaluating a producer, looking a node up and bumping the model version.
+//
+// The census clauses close the set of entry points: inside the server/app package and this package a call of one
+// of the three evaluating interface methods is accepted only inside a function guarded like this (node
+// implementations in other packages call In.Value() as part of an evaluation that is already inside the lock).
+
+//@ census github.com/EliCDavis/polyform/generator [C13]: Parameter.ApplyMessage, Parameter.ToMessage, NodeOutput.Value
+//@ census github.com/EliCDavis/polyform/generator/graph [C13]: Parameter.ApplyMessage, Parameter.ToMessage, NodeOutput.Value
+
+//@ func Instance.UpdateParameter
+//@   props C13
+//@   modifies *
+//@   requires i != nil && !held(i.producerLock)
+//@   guarded i.producerLock: Parameter.ApplyMessage, Parameter.ToMessage, NodeOutput.Value, Instance.Parameter, Instance.Node, Instance.incModelVersion
+
+//@ func Instance.ParameterData
+//@   props C13
+//@   modifies *
+//@   requires i != nil && !held(i.producerLock)
+//@   guarded i.producerLock: Parameter.ApplyMessage, Parameter.ToMessage, NodeOutput.Value, Instance.Parameter, Instance.Node, Instance.incModelVersion
+
+//@ func Instance.Artifact
+//@   props C13
+//@   modifies *
+//@   requires i != nil && !held(i.producerLock)
+//@   guarded i.producerLock: Parameter.ApplyMessage, Parameter.ToMessage, NodeOutput.Value, Instance.Parameter, Instance.Node, Instance.incModelVersion
